@@ -266,4 +266,42 @@ theorem nodesLocate_points (ar : Arith) (g : Geom) (h : ptOk g = true) : NodesLo
   rw [this]
   exact hin
 
+mutual
+theorem noK9_points (p : Pt) : ∀ (g : Geom), ptOk g = true → Geo.Proofs.C02X.noK9 p g = true
+  | .point _, _ => rfl
+  | .multiPoint _, _ => rfl
+  | .collection gs, h => by
+      have hl : ptOkList gs = true := by simpa [ptOk] using h
+      simp only [Geo.Proofs.C02X.noK9]
+      exact noK9_pointsList p gs hl
+  | .line _ _, h => by simp [ptOk] at h
+  | .lineString _, h => by simp [ptOk] at h
+  | .multiLineString _, h => by simp [ptOk] at h
+  | .polygon _, h => by simp [ptOk] at h
+  | .multiPolygon _, h => by simp [ptOk] at h
+  | .rect _ _, h => by simp [ptOk] at h
+  | .triangle _ _ _, h => by simp [ptOk] at h
+theorem noK9_pointsList (p : Pt) : ∀ (gs : List Geom), ptOkList gs = true → Geo.Proofs.C02X.noK9List p gs = true
+  | [], _ => rfl
+  | g :: gs, h => by
+      simp only [ptOkList, Bool.and_eq_true] at h
+      simp only [Geo.Proofs.C02X.noK9List, Bool.and_eq_true]
+      exact ⟨noK9_points p g h.1, noK9_pointsList p gs h.2⟩
+end
+
+/-- the operands for which `Point × B` is tied to the specification at every point: every type but
+GeometryCollection, and the collections all of whose members (recursively) are linear, or all point-like -/
+def pointRowsOk (b : Geom) : Bool := notCollection b || linOk b || ptOk b
+
+/-- **rows Interior / Boundary of `relate(Point p, B)` are the specification's, at every `p`** -/
+theorem point_rows_eq_spec_dom4 (p : Pt) (b : Geom) (hd : inDomain b = true) (ht : pointRowsOk b = true) {m : IM}
+    (h : relateGraph Arith.exact (.point p) b = some m) (X Y : Pos) (hX : X ≠ .outside) :
+    m.get X Y = (relateSpec (.point p) b).get X Y := by
+  simp only [pointRowsOk, Bool.or_eq_true] at ht
+  rcases ht with (ht | ht) | ht
+  · exact point_rows_eq_spec_dom3 p b hd ht h X Y hX
+  · exact point_rows_eq_spec_linear p b hd ht h X Y hX
+  · exact point_rows_eq_spec_of_nodesLocate_off _ p b h (nodesLocate_points _ b ht).1 (nodesLocate_points _ b ht).2
+      (fun _ => Geo.Proofs.C02X.coordPos_dom b p hd (noK9_points p b ht)) X Y hX
+
 end Geo.Proofs.RELM3
